@@ -31,7 +31,7 @@ var (
 	Dual1 = &sim.Kind{Group: "dual.ex", Version: "v1", Resource: "duals", Kind: "Dual", Namespaced: true, StoreKey: "dual.ex|duals@v1"}
 	Dual2 = &sim.Kind{Group: "dual.ex", Version: "v2", Resource: "duals", Kind: "Dual", Namespaced: true, StoreKey: "dual.ex|duals@v2"}
 	// PlainThing: a parent kind for which the server keeps no metadata.generation (like several built-in kinds)
-	PlainThing = &sim.Kind{Group: "ex.io", Version: "v1", Resource: "plainthings", Kind: "PlainThing", Namespaced: true, StatusSub: true, NoGeneration: true}
+	PlainThing = &sim.Kind{Group: "ex.io", Version: "v1", Resource: "plainthings", Kind: "PlainThing", Namespaced: true, StatusSub: true, NoGeneration: true, SubFirst: true}
 	// CoreWidget: a second resource with the SAME Kind and the SAME plural name as Widget, in the core group
 	// (like v1 Service and serving.knative.dev/v1 Service): whatever identifies a child type by its kind alone,
 	// or treats the empty group as "any group", confuses the two
@@ -273,7 +273,7 @@ func (r Raw) MarshalJSON() ([]byte, error) { return []byte(r), nil }
 const Missing = Raw("\x00missing")
 
 // Replacements is the C13 value alphabet.
-var Replacements = []Raw{Missing, "null", "true", "0", "-1", "1e400", "9223372036854775808", `"s"`, "[]", "[null]", "{}", `{"x":null}`}
+var Replacements = []Raw{Missing, "null", "true", "0", "-1", "1e400", "9223372036854775808", `"s"`, "[]", "[null]", "[null,null]", "{}", `{"x":null}`}
 
 func deepCopyTree(v interface{}) interface{} {
 	switch t := v.(type) {
